@@ -692,3 +692,203 @@ Proof.
   - intros tr it l. apply supertypes_items_wf; assumption.
   - intros tr it l. apply subtypes_items_wf; assumption.
 Qed.
+
+(* ========================================================================================== *)
+(* a boolean checker of the premise, for the non-vacuity examples on real dumps                *)
+(* ========================================================================================== *)
+
+Definition range_in_b (L : N) (r : range) : bool :=
+  pos_leb' (rstart r) (rend r) && (pline (rstart r) <=? L) && (pline (rend r) <=? L).
+
+Lemma range_in_b_ok L r : range_in_b L r = true -> RangeIn L r.
+Proof.
+  unfold range_in_b, RangeIn, range_wf, lines_le. rewrite !andb_true_iff, pos_leb'_le, !N.leb_le. tauto.
+Qed.
+
+Definition sel_ok_b (L : N) (n : node) : bool :=
+  match attr_tok K_ident n with
+  | Some t =>
+      (is_kind KAstForBlock n && match attr_tok K_end n with None => true | Some _ => false end) ||
+      (insideb (trange t) (nrange n) && range_in_b L (trange t))
+  | None => negb (needs_ident (nkind n))
+  end.
+
+Definition name_inside_b (n : node) : bool :=
+  if is_kind KAstProcedure n || is_kind KAstFunction n
+  then match nchildren n with c :: _ => insideb (nrange c) (nrange n) | [] => false end
+  else true.
+
+Definition node_wf_b (L : N) (n : node) : bool := range_in_b L (nrange n) && sel_ok_b L n && name_inside_b n.
+
+Lemma node_wf_b_ok L n : node_wf_b L n = true -> NodeWf L n.
+Proof.
+  unfold node_wf_b. rewrite !andb_true_iff. intros [[H1 H2] H3]. apply range_in_b_ok in H1 as [A B].
+  split; [exact A|]. split; [exact B|]. split.
+  - unfold sel_ok_b in H2. split.
+    + intros t Ht Hfor. rewrite Ht in H2. apply orb_true_iff in H2 as [H2|H2].
+      * apply andb_true_iff in H2 as [K E]. apply LP.is_kind_true in K. specialize (Hfor K).
+        destruct (attr_tok K_end n); [discriminate|congruence].
+      * apply andb_true_iff in H2 as [I1 I2]. apply insideb_spec in I1. apply range_in_b_ok in I2 as [C D]. auto.
+    + intros Hn E. rewrite E in H2. rewrite Hn in H2. discriminate.
+  - unfold name_inside_b in H3. intros Hk.
+    assert (is_kind KAstProcedure n || is_kind KAstFunction n = true) as E.
+    { apply orb_true_iff. destruct Hk as [Hk|Hk]; [left|right]; apply LP.is_kind_true; exact Hk. }
+    rewrite E in H3. destruct (nchildren n) as [|c l]; [discriminate|]. apply insideb_spec. exact H3.
+Qed.
+
+Lemma all_nodes_b_to (P : node -> Prop) (p : node -> bool) : (forall n, p n = true -> P n) ->
+  forall n, all_nodes_b p n = true -> Forall_nodes P n.
+Proof.
+  intro Hp. fix IH 1. intros [k id raw rng at_ ch] Hb. cbn [all_nodes_b] in Hb. apply andb_true_iff in Hb as [H1 H2].
+  split; [apply Hp; exact H1|]. clear H1.
+  induction ch as [|c ch IHc]; [exact I|]. apply andb_true_iff in H2 as [A B]. split; [apply IH; exact A|apply IHc; exact B].
+Qed.
+
+Theorem wf_tree_b_ok L t : all_nodes_b (node_wf_b L) t = true -> WfTree L t.
+Proof. apply all_nodes_b_to. apply node_wf_b_ok. Qed.
+
+(* boolean forms of the conclusions *)
+Definition diag_in_b (L : N) (d : R.diag) : bool := range_in_b L (R.d_range d).
+
+(* the guards, decidable on a given workspace *)
+Definition tables_at_home_b (ws : W.wst) : bool :=
+  forallb (fun jd : nat * W.doc =>
+             forallb (fun T => match t_syms T with [] => true | _ =>
+                                 match W.find_doc ws (cls_str T) with Some (k, _) => Nat.eqb k (fst jd) | None => true end end)
+                     (tables_of false (snd (snd jd)) ++ tables_of true (snd (snd jd))))
+          (combine (seq 0 (length ws)) ws).
+
+Lemma nth_error_combine_seq {A} (l : list A) : forall s j x, nth_error l j = Some x -> In ((s + j)%nat, x) (combine (seq s (length l)) l).
+Proof.
+  induction l as [|y l IH]; intros s [|j] x Hx; try discriminate; cbn [length seq combine].
+  - inversion Hx; subst. left. f_equal. lia.
+  - right. replace (s + S j)%nat with (S s + j)%nat by lia. apply IH. exact Hx.
+Qed.
+
+Theorem tables_at_home_b_ok ws : tables_at_home_b ws = true -> TablesAtHome ws.
+Proof.
+  intros Hb j d b T k dt Hn HT Hne Hf. unfold tables_at_home_b in Hb. rewrite forallb_forall in Hb.
+  specialize (Hb (j, d) (nth_error_combine_seq ws 0 j d Hn)). cbn [fst snd] in Hb. rewrite forallb_forall in Hb.
+  assert (In T (tables_of false (snd d) ++ tables_of true (snd d))) as HT'.
+  { apply in_or_app. destruct b; [right|left]; exact HT. }
+  specialize (Hb T HT'). destruct (t_syms T); [congruence|]. rewrite Hf in Hb. apply Nat.eqb_eq in Hb. exact Hb.
+Qed.
+
+Definition doc_eqb_stem (a b : H.doc) : bool := str_eqb (fst a) (fst b).
+
+(* for workspaces with distinct stems a document is identified by its stem *)
+Definition tables_at_home_hb (ws : H.wsT) : bool :=
+  forallb (fun d : H.doc =>
+             forallb (fun T => match t_syms T with [] => true | _ =>
+                                 match H.doc_of ws (upper (cls_str T)) with
+                                 | Some d' => str_eqb (upper (fst d')) (upper (fst d))
+                                 | None => true end end)
+                     (tables_of false (snd d))) ws.
+
+Theorem tables_at_home_hb_ok ws : HP.distinct_stems ws -> tables_at_home_hb ws = true -> TablesAtHomeH ws.
+Proof.
+  intros Hnd Hb d T d' Hd HT Hne Hf. unfold tables_at_home_hb in Hb. rewrite forallb_forall in Hb.
+  specialize (Hb d Hd). rewrite forallb_forall in Hb. specialize (Hb T HT). destruct (t_syms T); [congruence|].
+  rewrite Hf in Hb. apply str_eqb_eq in Hb. destruct (doc_of_found _ _ _ Hf) as (Hd' & _ & Hu).
+  rewrite Hb, (HP.doc_of_unique ws d Hnd Hd) in Hu. congruence.
+Qed.
+
+(* ========================================================================================== *)
+(* (d) composition with the lexer and the parser: statements about TEXTS                       *)
+(* ========================================================================================== *)
+
+(* the tree parse_content gets for a text (parse_gold is total: C04; the last arm is never taken) *)
+Definition root_of_text (text : str) : node :=
+  match fst (parse_gold (fst (lex text))) with
+  | Ok _ root => root
+  | _ => Node KAstRoot [] 0 range0 [] []
+  end.
+
+(* Document::get_parser_diagnostics(): the parser's diagnostics (in report order), then the lexer's errors;
+   `emsg` = the text the server prints for a lexer error (any function) *)
+Definition pd_of_parse (ds : list PComb.pdiag) (errs : list lexerr) (emsg : lexerr -> str) : list R.pdiag :=
+  map (fun d => R.mkPD (drange d) (dmsg d)) (rev ds) ++ map (fun e => R.mkPD (erange e) (emsg e)) errs.
+
+Definition pd_of_text (text : str) (emsg : lexerr -> str) : list R.pdiag :=
+  pd_of_parse (cdiags (snd (parse_gold (fst (lex text))))) (snd (lex text)) emsg.
+
+Lemma pd_of_parse_wf L ds errs emsg :
+  Forall (DiagWf L) ds -> Forall (fun e => range_wf (erange e) /\ lines_le L (erange e)) errs ->
+  PdWf L (pd_of_parse ds errs emsg).
+Proof.
+  intros Hd He. unfold PdWf, pd_of_parse. apply Forall_app. split.
+  - apply Forall_forall. intros p Hp. apply in_map_iff in Hp as (d & <- & Hin). apply in_rev in Hin.
+    rewrite Forall_forall in Hd. exact (Hd d Hin).
+  - apply Forall_forall. intros p Hp. apply in_map_iff in Hp as (e & <- & Hin).
+    rewrite Forall_forall in He. exact (He e Hin).
+Qed.
+
+(* C08_parse_gold_wf (Properties/C08.v), restated here to be used below *)
+Lemma parse_gold_wf_ex L ts : TokSorted L ts ->
+  exists root c, parse_gold ts = (Ok [] root, c) /\ Forall_nodes (NodeWf L) root /\ Forall (DiagWf L) (cdiags c).
+Proof.
+  intros Hs. unfold parse_gold.
+  destruct (parse_gold_total true (default_fuel ts) ts) as [root Hr]; [unfold default_fuel; lia|].
+  pose proof (parse_gold_wf L ts true (default_fuel ts) Hs) as HW.
+  destruct (parse_gold_with true (default_fuel ts) ts) as [r c]. cbn [fst] in Hr. subst r.
+  exists root, c. split; [reflexivity|exact HW].
+Qed.
+
+Lemma parsed_text_facts text :
+  exists root c, parse_gold (fst (lex text)) = (Ok [] root, c) /\ root_of_text text = root /\
+    WfTree (lf_count text) root /\ Forall (DiagWf (lf_count text)) (cdiags c).
+Proof.
+  destruct (parse_gold_wf_ex (lf_count text) (fst (lex text)) (lex_TokSorted text)) as (root & c & E & Hn & Hd).
+  exists root, c. split; [exact E|]. split; [unfold root_of_text; rewrite E; reflexivity|]. split; assumption.
+Qed.
+
+(* the hypothesis of (a)-(c) holds for the tree of ANY text *)
+Theorem root_of_text_wf text : WfTree (lf_count text) (root_of_text text).
+Proof. destruct (parsed_text_facts text) as (root & c & _ & -> & Hn & _). exact Hn. Qed.
+
+Theorem pd_of_text_wf text emsg : PdWf (lf_count text) (pd_of_text text emsg).
+Proof.
+  destruct (parsed_text_facts text) as (root & c & E & _ & _ & Hd). unfold pd_of_text. rewrite E. cbn [snd].
+  apply pd_of_parse_wf; [exact Hd|apply lex_errors_wf].
+Qed.
+
+(* response_of_parsed_text: for ANY text, every item of the diagnostics response assembled for its tree and its
+   parser / lexer diagnostics has start <= end on lines of the text *)
+Theorem response_of_parsed_text text emsg :
+  Forall (fun d => range_wf (R.d_range d) /\ lines_le (lf_count text) (R.d_range d))
+         (R.report (root_of_text text) (pd_of_text text emsg)).
+Proof. apply report_items_wf; [apply root_of_text_wf|apply pd_of_text_wf]. Qed.
+
+(* a workspace of texts *)
+Definition ws_of_texts (tx : list (str * str)) : W.wst := map (fun st => (fst st, root_of_text (snd st))) tx.
+Definition lines_of_texts (tx : list (str * str)) : list N := map (fun st => lf_count (snd st)) tx.
+
+Theorem ws_of_texts_wf tx : WsWf (ws_of_texts tx) (lines_of_texts tx).
+Proof.
+  unfold WsWf, ws_of_texts, lines_of_texts. induction tx as [|st tx IH]; [constructor|].
+  cbn [map]. constructor; [apply root_of_text_wf|exact IH].
+Qed.
+
+(* one parsed document: every definition link is well formed within the text *)
+Theorem links_of_parsed_text text stem p ls :
+  definition (root_of_text text) stem p = Ans ls ->
+  Forall (fun l => RangeIn (lf_count text) (fst l) /\ RangeIn (lf_count text) (snd l) /\ inside (fst l) (snd l)) ls.
+Proof. apply definition_links_wf_doc. apply root_of_text_wf. Qed.
+
+(* a workspace of parsed documents: links and hierarchy items *)
+Theorem links_of_parsed_texts tx a p ls :
+  TablesAtHome (ws_of_texts tx) -> W.wdefinition (ws_of_texts tx) a p = Ans ls ->
+  Forall (fun l : W.wlink =>
+            let '(stem, sel, rng) := l in
+            exists k dt L, W.find_doc (ws_of_texts tx) stem = Some (k, dt) /\ fst dt = stem /\
+                           nth_error (lines_of_texts tx) k = Some L /\
+                           RangeIn L sel /\ RangeIn L rng /\ inside sel rng) ls.
+Proof. apply definition_links_wf. apply ws_of_texts_wf. Qed.
+
+Theorem items_of_parsed_texts tx :
+  HP.distinct_stems (ws_of_texts tx) -> TablesAtHomeH (ws_of_texts tx) ->
+  (forall d p l, In d (ws_of_texts tx) -> H.prepare (ws_of_texts tx) d p = Ans (H.ROk l) ->
+                 Forall (ItemWf (ws_of_texts tx) (lines_of_texts tx)) l) /\
+  (forall tr it l, H.supertypes_of (ws_of_texts tx) tr it = Ans (H.ROk l) -> Forall (ItemWf (ws_of_texts tx) (lines_of_texts tx)) l) /\
+  (forall tr it l, H.subtypes_of (ws_of_texts tx) tr it = Ans (H.ROk l) -> Forall (ItemWf (ws_of_texts tx) (lines_of_texts tx)) l).
+Proof. apply hierarchy_items_wf. apply ws_of_texts_wf. Qed.
